@@ -34,6 +34,8 @@ type Case struct {
 	Precompiled bool         `json:"shared_schemas_precompiled"`
 	ShareTypes  bool         `json:"private_schemas_add_the_same_type_objects"`
 	Procs       int          `json:"gomaxprocs"`
+	// OracleAfter: the sequential results are computed after the concurrent run, not before it
+	OracleAfter bool `json:"sequential_oracle_after_the_run,omitempty"`
 }
 
 func init() {
@@ -90,16 +92,30 @@ func raceLogTail() string {
 func execute(t run.TB, c Case) {
 	old := runtime.GOMAXPROCS(c.Procs)
 	defer runtime.GOMAXPROCS(old)
-	// sequential oracle: every (spec, op) on a fresh object, single-threaded
+	// sequential oracle: every (spec, op) on a fresh object, single-threaded - before the goroutines
+	// start, or (OracleAfter) after they have finished: then the concurrent calls are the first ones
+	// of their kind in the process (whatever the library works out once per process - tables,
+	// memoised answers - is worked out by goroutines racing to it)
 	want := map[string]string{}
-	for _, plan := range c.Plans {
-		for _, call := range plan {
-			k := fmt.Sprintf("%d/%s", call.Spec, call.Op)
-			if _, ok := want[k]; !ok {
-				want[k], _ = hist.Do(hist.Build(c.Specs[call.Spec]), call.Op)
+	oracle := func() {
+		for _, plan := range c.Plans {
+			for _, call := range plan {
+				k := fmt.Sprintf("%d/%s", call.Spec, call.Op)
+				if _, ok := want[k]; !ok {
+					want[k], _ = hist.Do(hist.Build(c.Specs[call.Spec]), call.Op)
+				}
 			}
 		}
 	}
+	if !c.OracleAfter {
+		oracle()
+	}
+	type result struct {
+		g, i int
+		call Call
+		got  string
+	}
+	var results []result
 	before := raceLogSize()
 	// shared objects
 	shared := make([]*hist.Obj, len(c.Specs))
@@ -145,11 +161,9 @@ func execute(t run.TB, c Case) {
 					o = private[call.Spec]
 				}
 				got, _ := hist.Do(o, call.Op)
-				if w := want[fmt.Sprintf("%d/%s", call.Spec, call.Op)]; got != w {
-					mu.Lock()
-					devs = append(devs, fmt.Sprintf("goroutine %d call %d: %s on spec %d (private=%v) returned %s; sequentially it returns %s", g, i, call.Op, call.Spec, call.Private, trunc(got), trunc(w)))
-					mu.Unlock()
-				}
+				mu.Lock()
+				results = append(results, result{g, i, call, got})
+				mu.Unlock()
 				if call.Yield {
 					runtime.Gosched()
 				}
@@ -158,6 +172,14 @@ func execute(t run.TB, c Case) {
 	}
 	close(start)
 	wg.Wait()
+	if c.OracleAfter {
+		oracle()
+	}
+	for _, r := range results {
+		if w := want[fmt.Sprintf("%d/%s", r.call.Spec, r.call.Op)]; r.got != w {
+			devs = append(devs, fmt.Sprintf("goroutine %d call %d: %s on spec %d (private=%v) returned %s; sequentially it returns %s", r.g, r.i, r.call.Op, r.call.Spec, r.call.Private, trunc(r.got), trunc(w)))
+		}
+	}
 	if len(devs) > 0 {
 		run.Fail(t, chk, c, "%s", strings.Join(devs[:min(len(devs), 3)], "\n"))
 	}
@@ -189,7 +211,7 @@ func TestConcurrentSharing(t *testing.T) {
 	defer run.Done(t, chk)
 	rapid.Check(t, func(t *rapid.T) {
 		c := Case{Precompiled: rapid.Bool().Draw(t, "precompiled"), ShareTypes: rapid.Bool().Draw(t, "shareTypes"),
-			Procs: rapid.SampledFrom([]int{2, 4, 16}).Draw(t, "procs")}
+			Procs: rapid.SampledFrom([]int{2, 4, 16}).Draw(t, "procs"), OracleAfter: rapid.Bool().Draw(t, "oracleAfter")}
 		n := rapid.IntRange(1, 3).Draw(t, "specs")
 		for i := 0; i < n; i++ {
 			sp := hist.DrawSchemaSpec(t, fmt.Sprint("s", i), rapid.SampledFrom([]int{0, 1, 2, 0, 1, 2, 4, 5, 6, 6}).Draw(t, "family"))
